@@ -3,7 +3,7 @@ CHECKS['C10'] = dict(
     design_ref='DESIGN.md 4 C10',
     technique='exhaustive fault-class x session-state injection (one fault per run, alone and after every benign earlier deviation; thorough: after two) on the real reactor under a virtual event loop; framing oracle on the bytes written until close',
     text='49 fault kinds (header, OPEN incl. UTF-8 host name / software version, UPDATE, ROUTE-REFRESH, unexpected and unregistered types, 4 received NOTIFICATIONs, hold-timer silence, 3 API teardowns, and a NOTIFICATION of the peer crossing a local teardown in 4 orders) are each injected at every macro step of a 12-step '
-         'session script - i.e. in every session state where they can occur - with hold time 9 and 0, with adj-rib-in off and with local-as auto (the peer's OPEN read before ours is sent), alone and (hold time 9; thorough: every configuration, and after two of them) after one earlier benign deviation at every earlier step (next message split in two, API announce in flight, one second of idle time), on the real Reactor/Peer/Protocol. For each run the messages ExaBGP wrote on that connection are framed by the reference framer: '
+         'session script - i.e. in every session state where they can occur - with hold time 9 and 0, with adj-rib-in off and with local-as auto (the OPEN of the peer read before ours is sent), alone and (hold time 9; thorough: every configuration, and after two of them) after one earlier benign deviation at every earlier step (next message split in two, API announce in flight, one second of idle time), on the real Reactor/Peer/Protocol. For each run the messages ExaBGP wrote on that connection are framed by the reference framer: '
          'at most one NOTIFICATION, nothing after it, connection closed after it, code/subcode inside the RFC set for (fault class, state), and no NOTIFICATION in answer to a NOTIFICATION (for the crossing cases: ours is never written after the read that completed the one of the peer).',
     note='Trusted: virtual loop and reference framer. A malformed message whose type is also unexpected in the state may be answered with either class; RFC 7606 attribute errors may legally not reset. Sessions ExaBGP chooses not to end are outside this property.',
 )
